@@ -102,9 +102,25 @@ def wholerun_record(ctx, res, rec):
                     "(%s has %s)" % (rec["prog"], own_methods), inp)
     if rec["tagged"] and not own_methods and rec["by"] != "natural":
         ctx.violate("C04:tagged-in-program-without-methods", "a program without any method reports a tagged leak", inp)
+    if not EC.tagging_methods(cfg, rec["prog"]):
+        ctx.count("wholerun_records_of_programs_that_cannot_tag:%s" % ("no-methods" if not next(p_["methods"] for p_ in res.cfg["programs"] if p_["name"] == rec["prog"]) else "coverage-0"))
+        if rec["tagged"] and rec["by"] != "natural":
+            ctx.violate("C04:tagged-with-zero-coverage",
+                        "a program none of whose methods can see any emission (coverage 0) reports a tagged leak", inp)
+    # the reporting delay of every tagging call is the one CONFIGURED for the calling method
+    for e in rec["tags"]:
+        if e[0] == "tag":
+            want = EC.configured_reporting_delay(cfg, e[5], e[6])
+            if e[6] != want:
+                ctx.violate("C04:reporting-delay-differs-from-configuration",
+                            "a tagging call carries a reporting delay other than the one configured for its method "
+                            "(%s: %s, configured %s)" % (e[5], e[6], want), inp)
+                break
     a = max(rec["start"], 0)
     nat_end = a + max(1, rec["nrd"] - b4)
     delays = [int(x) for x in cfg["repair_delay"]]
+    if 0 in delays:
+        ctx.count("wholerun_records_with_repair-delay-0-configured")
     comp_methods = [m for m, v in cfg["methods"].items() if v["measurement_scale"] == "component"]
     # tagging calls reach every emission *active* at the component: calls before this emission's first
     # active day concern its predecessors at the same component
@@ -128,7 +144,12 @@ def wholerun_record(ctx, res, rec):
             if not done:
                 ctx.violate("C04:tag-without-completed-survey",
                             "tagging call without a completed survey of that site by that method that day", inp)
-            ok = any(rec["endDate"] == T + max(1, d + first[6]) for d in delays)
+            trd = EC.configured_reporting_delay(cfg, first[5], first[6])
+            ok = any(rec["endDate"] == T + max(1, d + trd) for d in delays)
+            if trd >= 30:
+                ctx.count("wholerun_program_repaired_with_reporting-delay>=30")
+            if rec["endDate"] == T + 1:
+                ctx.count("wholerun_program_repaired_on_the_day_after_the_tag")
             if not ok:
                 ctx.violate("C04:end-differs", "repair date is not tag date + max(1, repair delay + reporting delay) for any configured delay", inp)
             if rec["endDate"] > nat_end:
@@ -141,7 +162,7 @@ def wholerun_record(ctx, res, rec):
     # logged tagging calls; the sampled repair delay is one of the configured ones)
     if live_calls and not (rec["status"] == "repaired" and rec["by"] != "natural"):
         first = live_calls[0]
-        T, trd = first[1], first[6]
+        T, trd = first[1], EC.configured_reporting_delay(cfg, first[5], first[6])
         dues = [T + max(1, d + trd) for d in delays]
         inp2 = dict(inp, first_tagging_call=first, repair_due_for_each_configured_delay=dues, natural_end=nat_end,
                     horizon=res.ndays)
